@@ -81,7 +81,36 @@ def check_result(ctx, res, ra, rb, op, swap=False):
     return ctx.AND(*oks)
 
 
-def binop(ctx, adims, asizes, bdims, bsizes, op='add', lk=None, dkind='f', prime=False):
+def _derive(ctx, a, ra, how, tag):
+    """an operand that is itself the result of earlier operations on a (cache-primed) array: reordered by a list of labels or of
+    positions, reversed by a slice, or transposed twice - with the reference re-arranged alike"""
+    for ax in a.axes:
+        ax.is_monotonic()
+    n = ra.shape[0]
+    perms = list(itertools.permutations(range(n)))
+    p = list(perms[ctx.choice('perm' + tag, len(perms))])
+    l0 = ra.labels[0]
+    if how == 'take-labels':
+        b = a.take([l0[i] for i in p], axis=0)
+    elif how == 'ix-list':
+        b = a.ix[p]
+    elif how == 'reverse-slice':
+        p = list(reversed(range(n)))
+        b = a.ix[::-1]
+    elif how == 'sort':
+        b = a.take([l0[i] for i in p], axis=0).sort_axis(axis=0)
+        order = sorted(range(n), key=lambda i: l0[i]) if all(isinstance(x, (int, float)) for x in l0) else None
+        if order is None:
+            from props.C07 import sorted_positions
+            order = sorted_positions(l0)
+        p = order
+    else:
+        raise ValueError(how)
+    sel = [list(p)] + [list(range(m)) for m in ra.shape[1:]]
+    return b, ra.select(sel)
+
+
+def binop(ctx, adims, asizes, bdims, bsizes, op='add', lk=None, dkind='f', prime=False, derive=None):
     lk = lk or {}
     a, ra = mk_operand(ctx, 'a', adims, asizes, [lk.get('a:' + d, lk.get(d, 'i')) for d in adims], dkind)
     b, rb = mk_operand(ctx, 'b', bdims, bsizes, [lk.get('b:' + d, lk.get(d, 'i')) for d in bdims], dkind)
@@ -97,6 +126,12 @@ def binop(ctx, adims, asizes, bdims, bsizes, op='add', lk=None, dkind='f', prime
         for o in (a, b):
             for ax in o.axes:
                 ax.is_monotonic()
+    if derive:
+        which, how = derive.split(':')
+        if 'a' in which:
+            a, ra = _derive(ctx, a, ra, how, 'a')
+        if 'b' in which:
+            b, rb = _derive(ctx, b, rb, how, 'b')
     r = ctx.call(lambda: OPS[op](a, b))
     if r[0] != 'ok':
         return ctx.done(False, r[1])
@@ -157,6 +192,13 @@ def templates():
     add('1d-real-vs-int', 'binop', cost=1, adims=['x'], asizes=[2], bdims=['x'], bsizes=[2], lk={'a:x': 'f', 'b:x': 'i'})
     add('1d-int-data', 'binop', cost=1, adims=['x'], asizes=[2], bdims=['x'], bsizes=[2], dkind='i')
     add('1d-primed', 'binop', cost=1, adims=['x'], asizes=[2], bdims=['x'], bsizes=[2], prime=True, op='sub')
+    # operands that are results of earlier operations on cache-primed arrays (reordered by list indexing, reversed, re-sorted)
+    for how in ('take-labels', 'ix-list', 'reverse-slice', 'sort'):
+        for which in ('a', 'b', 'ab'):
+            quick = which == 'a' or (which == 'b' and how == 'reverse-slice')
+            add('1d-derived-%s-%s' % (which, how), 'binop', 'quick' if quick else 'thorough', cost=8 if which != 'ab' else 60, adims=['x'], asizes=[3], bdims=['x'], bsizes=[2], op='sub',
+                derive='%s:%s' % (which, how), lk={'x': 'i' if how != 'sort' else 'f'})
+    add('2d-derived-a-take-labels', 'binop', 'thorough', cost=30, adims=['x', 'y'], asizes=[3, 2], bdims=['x'], bsizes=[2], op='add', derive='a:take-labels')
     add('1d-primed-3x2', 'binop', cost=8, adims=['x'], asizes=[3], bdims=['x'], bsizes=[2], prime=True, op='sub')
     # dimension overlap patterns and orders (pool x, y, z)
     pool = ['x', 'y', 'z']
